@@ -57,11 +57,77 @@ def run(chk) -> None:
     _r33a(chk, repo)
     _r33b(chk, repo)
     _r33c(chk, repo)
+    chk.rule("R33e", "the noqa filters applied after the sort keep the order they are given: each IgnoreMask._ignore_masked_violations_* returns either a comprehension over its violations parameter or a fresh list filled only by appending the variable of one loop over that parameter")
+    _r33e(chk, repo)
     chk.rule("R33d", "the human-readable CLI output prints a file's violations in the order of a sort on (line_no, line_pos) made at the print site: get_violations() appends the unused-noqa warnings after the sorted list, so the list handed over is not in source order by itself")
     _r33d(chk, repo)
 
 
 FORMATTERS = "src/sqlfluff/cli/formatters.py"
+
+
+def _r33e(chk, repo) -> None:
+    NOQA_ = "src/sqlfluff/core/rules/noqa.py"
+    n = 0
+    for q, f in repo.mod(NOQA_).functions():
+        if not f.name.startswith(("_ignore_masked_violations", "_filter_violations")):
+            continue
+        cfg = cfg_of(f)
+        params = [a.arg for a in f.args.args if a.arg not in ("self", "cls")]
+        if not params:
+            continue
+        vp = params[0]
+        for r in [r for r in walk_local(f) if isinstance(r, ast.Return) and r.value is not None]:
+            n += 1
+            v = r.value
+            problems = []
+
+            def ordered_view(e, at) -> bool:
+                """a comprehension / filter over the parameter, in its order"""
+                if isinstance(e, (ast.ListComp, ast.GeneratorExp)) and len(e.generators) == 1:
+                    g = e.generators[0]
+                    return isinstance(e.elt, ast.Name) and isinstance(g.target, ast.Name) and e.elt.id == g.target.id and param_origin(cfg, g.iter, at) == vp
+                if isinstance(e, ast.Call) and call_name(e) in ("list", "tuple") and len(e.args) == 1:
+                    return ordered_view(e.args[0], at)
+                if isinstance(e, ast.Call) and call_name(e) == "filter" and len(e.args) == 2:
+                    return param_origin(cfg, e.args[1], at) == vp
+                # a chain of the sibling filters (each judged on its own): x = d._filter_violations_..(x)
+                if isinstance(e, ast.Call) and last_attr(e).startswith(("_ignore_masked_violations", "_filter_violations")) and e.args and isinstance(e.args[0], ast.Name):
+                    os2 = origins(cfg, e.args[0], at)
+                    return bool(os2) and all(o.kind == "param" or (o.kind == "expr" and (o.expr is e or ordered_view(o.expr, o.stmt))) for o in os2)
+                return False
+
+            if isinstance(v, ast.Name):
+                os_ = origins(cfg, v, r)
+                if param_origin(cfg, v, r) == vp:
+                    continue
+                if os_ and all(o.kind == "param" or (o.kind == "expr" and ordered_view(o.expr, o.stmt)) for o in os_) and not mutations_of(f, v.id):
+                    continue
+                fresh = bool(os_) and all(o.kind == "expr" and isinstance(o.expr, ast.List) and not o.expr.elts for o in os_)
+                if not fresh:
+                    problems.append(f"`{v.id}` does not start as an empty list (or a filtered view of `{vp}`)")
+                loops = set()
+                for kind, node in mutations_of(f, v.id):
+                    if kind != "append":
+                        problems.append(f"`{v.id}` is changed by {kind}")
+                        continue
+                    fo = for_origin(cfg, node.args[0] if node.args else None, cfg.stmt_of(node))
+                    if fo is None or fo[1] or param_origin(cfg, fo[0].iter, fo[0]) != vp:
+                        problems.append(f"`{short(node, 40)}` does not append the variable of a loop over `{vp}`")
+                    else:
+                        loops.add(id(fo[0]))
+                if len(loops) > 1:
+                    problems.append("elements are appended in more than one loop")
+            elif not ordered_view(v, r):
+                problems.append(f"returns `{short(v, 50)}`")
+            chk.require(
+                not problems, "R33e", r,
+                f"{q} does not return its violations in the order it was given them ({'; '.join(problems)}): LintedFile.get_violations() applies the mask AFTER the sort, so what it "
+                "returns is no longer in source order",
+                detail=f"{q}: an order-preserving filter of its input",
+            )
+    chk.count("R33e.mask_filter_returns", n)
+    chk.floor("R33e.mask_filter_returns", 2)
 
 
 def _r33d(chk, repo) -> None:
